@@ -190,7 +190,8 @@ Definition exp_infix_dispatch_cases : list (string * string) :=
    ("bool", "return c.boolsOperator(lres, rres, node.Operator)");
    ("default", "if reflect.TypeOf(t).Kind() == reflect.Slice || reflect.TypeOf(t).Kind() == reflect.Array { return c.arrayOperator(lres, rres, node.Operator) }")].
 
-Definition exp_infix_prelude : list string := ["tolerated := func(err error) bool { if _, ok := err.(*ErrUnknownIdentifier); !ok { return false } return node.Operator == ""=="" || node.Operator == ""!="" || node.Operator == ""||"" || node.Operator == ""&&"" }";
+Definition exp_infix_prelude : list string := ["stmt := c.curStmt";
+   "tolerated := func(err error) bool { if node.Operator == ""=="" || node.Operator == ""!="" || node.Operator == ""||"" || node.Operator == ""&&"" { return c.unknownIsNil(err, stmt) } return false }";
    "lres, err := c.evalExpression(node.Left)";
    "if err != nil && !tolerated(err) { return nil, err }";
    "switch { case node.Operator == ""&&"" && !c.isTruthy(lres): return false, nil case node.Operator == ""||"" && c.isTruthy(lres): return true, nil }";
@@ -199,18 +200,21 @@ Definition exp_infix_prelude : list string := ["tolerated := func(err error) boo
    "switch node.Operator { case ""&&"", ""||"": return c.isTruthy(rres), nil }";
    "if nil == lres || nil == rres { return c.nilsOperator(lres, rres, node.Operator) }"].
 
-Definition exp_body_evalPrefixExpression : list string := ["res, err := c.evalExpression(node.Right)";
-   "if err != nil { if _, ok := err.(*ErrUnknownIdentifier); !ok { return nil, err } }";
+Definition exp_body_evalPrefixExpression : list string := ["stmt := c.curStmt";
+   "res, err := c.evalExpression(node.Right)";
+   "if err != nil { if !c.unknownIsNil(err, stmt) { return nil, err } }";
    "switch node.Operator { case ""!"": return !c.isTruthy(res), nil }";
    "return nil, fmt.Errorf(""E"", node.Operator)"].
 
-Definition exp_body_evalIfExpression : list string := ["con, err := c.evalExpression(node.Condition)";
-   "if err != nil { if _, ok := err.(*ErrUnknownIdentifier); !ok { return nil, err } }";
+Definition exp_body_evalIfExpression : list string := ["stmt := c.curStmt";
+   "con, err := c.evalExpression(node.Condition)";
+   "if err != nil { if !c.unknownIsNil(err, stmt) { return nil, err } }";
    "if c.isTruthy(con) { return c.evalBlockStatement(node.Block) }";
    "return c.evalElseAndElseIfExpressions(node)"].
 
 Definition exp_body_evalElseAndElseIfExpressions : list string := ["var r interface{}";
-   "for _, eiNode := range node.ElseIf { eiCon, err := c.evalExpression(eiNode.Condition) if err != nil { if _, ok := err.(*ErrUnknownIdentifier); !ok { return nil, err } } if c.isTruthy(eiCon) { return c.evalBlockStatement(eiNode.Block) } }";
+   "stmt := c.curStmt";
+   "for _, eiNode := range node.ElseIf { eiCon, err := c.evalExpression(eiNode.Condition) if err != nil { if !c.unknownIsNil(err, stmt) { return nil, err } } if c.isTruthy(eiCon) { return c.evalBlockStatement(eiNode.Block) } }";
    "if node.ElseBlock != nil { return c.evalBlockStatement(node.ElseBlock) }";
    "return r, nil"].
 
